@@ -134,15 +134,22 @@ func (f AmmoFile) ExpectedPass(confHeaders []KV) []Expect {
 			}
 			x.Header.Del("Host")
 		}
+		// configured headers apply where the entry does not define the header itself; a name
+		// configured more than once carries all its values, in the order written
+		own := map[string]bool{}
+		for k := range x.Header {
+			own[k] = true
+		}
+		hostSet := x.Host != ""
 		for _, kv := range confHeaders {
 			k := canon(kv.K)
 			if k == "Host" {
-				if x.Host == "" {
-					x.Host = kv.V
+				if !hostSet {
+					x.Host, hostSet = kv.V, true
 				}
 				continue
 			}
-			if _, ok := x.Header[k]; !ok {
+			if !own[k] {
 				x.Header[k] = append(x.Header[k], kv.V)
 			}
 		}
